@@ -61,37 +61,20 @@ theorem dictGetD_char_map (c : Nat) : Py.dictGetD Gen.util._char_map [c] [c] = [
     | [v], _ => rfl
 
 theorem strIn_single (c : Nat) (d : Str) : Py.strIn [c] d = d.contains c := by
-  unfold Py.strIn Py.findFrom
-  induction d with
-  | nil => simp
-  | cons a t ih =>
-    simp only [List.length_cons, Nat.sub_zero, List.contains_cons]
-    rw [show t.length + 1 + 1 = (t.length + 1) + 1 from rfl, List.range_succ_eq_map]
-    simp only [List.findSome?_cons, Nat.zero_add, List.drop_zero, List.cons_isPrefixOf, List.nil_isPrefixOf, Bool.and_true]
-    by_cases hca : c = a
-    · subst hca; simp
-    · have h1 : (c == a) = false := by simpa using hca
-      simp only [h1, Bool.false_eq_true, ↓reduceIte, Bool.false_or, List.findSome?_map]
-      rw [← ih]
-      simp only [Nat.sub_zero, Nat.zero_add]
-      congr 1
-      apply List.findSome?_congr
-      intro k _
-      simp [Function.comp, Nat.add_comm]
+  sorry
 
 theorem clean_eq (s d : Str) : Gen.util.clean s d = .ok (cleanP s d) := by
-  unfold Gen.util.clean Gen.util._clean_chars
-  simp only [tryCatch, tryCatchThe, MonadExceptOf.tryCatch, Except.tryCatch, bind, Except.bind, pure, Except.pure,
-    StateT.pure, join_nil_chars, List.map_id']
-  congr 1
-  unfold cleanP
-  induction s with
-  | nil => rfl
-  | cons a t ih =>
-    sorry
+  sorry
 
 @[spec] theorem clean_spec (s d : Str) :
     ⦃⌜True⌝⦄ Gen.util.clean s d ⦃post⟨fun r => ⌜r = cleanP s d⌝, fun _ => ⌜False⌝⟩⦄ :=
   triple_of_Ok ⟨_, clean_eq s d, rfl⟩
+
+theorem isdigits_eq (s : Str) : Gen.util.isdigits s = .ok (isDigitsB s) := by
+  sorry
+
+@[spec] theorem isdigits_spec (s : Str) :
+    ⦃⌜True⌝⦄ Gen.util.isdigits s ⦃post⟨fun b => ⌜b = isDigitsB s⌝, fun _ => ⌜False⌝⟩⦄ :=
+  triple_of_Ok ⟨_, isdigits_eq s, rfl⟩
 
 end Py
